@@ -577,7 +577,40 @@ Section Pcs.
 
   (* The statement asked for in one piece: what acceptance of a raw quote + collateral establishes,
      clause by clause, exactly as the code enforces it. *)
+  (* TdxQuotePolicy.Verify / TdxModulePolicy.Matches (policy.go:37-87): an entry matches iff EVERY field it sets
+     matches -- the pinned MRSEAM (if any) AND the MRSIGNERSEAM; an empty list admits exactly the all-zero (Intel) signer *)
+  Definition entry_matches (body : bytes) (m : TdxModulePolicy) : Prop :=
+    (forall s, mp_mrseam m = Some s -> s = td_mrseam body) /\ mp_mrsigner m = td_mrsignerseam body.
+  Definition tdx_policy_admits (mods : list TdxModulePolicy) (body : bytes) : Prop :=
+    (exists m, In m mods /\ entry_matches body m) \/ (mods = [] /\ td_mrsignerseam body = zeros 48).
+
+  Lemma module_matches_spec body m : module_matches body m = true <-> entry_matches body m.
+  Proof.
+    unfold module_matches, entry_matches. split.
+    - intros H. apply andb_true_iff in H as [A B]. apply bytes_eqb_eq in B. split; [|exact B].
+      intros s Hs. rewrite Hs in A. apply bytes_eqb_eq in A. exact A.
+    - intros [A B]. apply andb_true_iff. split; [|apply bytes_eqb_eq; exact B].
+      destruct (mp_mrseam m) as [s|]; [|reflexivity]. apply bytes_eqb_eq. apply A. reflexivity.
+  Qed.
+
+  Lemma tdx_module_allowed_spec mods body : tdx_module_allowed mods body = true <-> tdx_policy_admits mods body.
+  Proof.
+    unfold tdx_module_allowed, tdx_policy_admits. split.
+    - intros H. apply orb_true_iff in H as [H|H].
+      + apply existsb_exists in H as (m & Hin & Hm). left. exists m. split; [exact Hin|]. apply module_matches_spec; exact Hm.
+      + apply andb_true_iff in H as [A B]. right. destruct mods; [|discriminate A].
+        apply bytes_eqb_eq in B. auto.
+    - intros [(m & Hin & Hm)|[-> B]]; apply orb_true_iff.
+      + left. apply existsb_exists. exists m. split; [exact Hin|]. apply module_matches_spec; exact Hm.
+      + right. cbn. apply bytes_eqb_eq. exact B.
+  Qed.
+
   Record ChainAndTcb (pol : Policy) (ts : Z) (q : Quote) (c : Collateral) (out : Output) : Prop := {
+    (* 0. policy: not disabled; a TDX quote needs a TDX policy that admits the module of the (signed) TD report;
+          the debug attribute of the report equals the process mode *)
+    ct_policy : p_disabled pol = false /\
+                (q_tee q = TEE_TDX -> exists mods, p_tdx pol = Some mods /\ tdx_policy_admits mods (q_body q)) /\
+                e_allow_debug env = (if q_tee q =? TEE_TDX then td_debug (q_body q) else sgx_debug (q_body q));
     (* 1. PCK chain: three certificates, path-valid at ts up to the pinned root (abstract X.509) *)
     ct_pck_chain : q_cert_type q = 5 /\ pck_count P (q_cert_data q) = 3 /\ pck_chain_ok P ts (q_cert_data q) = true;
     ct_links : exists pck tpk ti qi tissue qissue lv,
@@ -624,10 +657,12 @@ Section Pcs.
     verify_parsed P env pol ts q c = Ok out -> ChainAndTcb pol ts q c out.
   Proof.
     intros L H. apply accept_parsed_implies_all_checks in H.
-    destruct H as [_ _ _ _ (pck & tpk & qi & ti & qissue & tissue & f & lv & R)].
+    destruct H as [P0 P1 P2 _ (pck & tpk & qi & ti & qissue & tissue & f & lv & R)].
     decompose [and] R. clear R.
     match goal with G : get_tcb_level _ _ _ _ = Ok lv |- _ => destruct (get_tcb_level_spec _ _ _ _ _ G) as (F1 & F2 & F3) end.
-    constructor; [auto|].
+    constructor; [|auto|].
+    { split; [exact P0|]. split; [|exact P2].
+      intros Ht. destruct (P1 Ht) as (mods & A & B). exists mods. split; [exact A|]. apply tdx_module_allowed_spec; exact B. }
     exists pck, tpk, ti, qi, tissue, qissue, lv.
     repeat match goal with |- _ /\ _ => split end; auto.
     - apply slice_split_64; auto.
